@@ -58,7 +58,7 @@ func (f *Format) Limits(p Params) []int {
 		hdr := 1000 - s.FragFirst // payload header bytes
 		ls := f.LegalSizes(p)
 		for i := 0; i < len(ls); i += 5 {
-			for d := -1; d <= 2; d++ {
+			for d := -2; d <= 2; d++ {
 				add(ls[i] + hdr + d)
 			}
 		}
